@@ -4,7 +4,7 @@
    pot_fill, treat_fill, geomcomp, comp_names) are those of C09/Model.v that
    the correspondence ties execute against the Python code. *)
 From Coq Require Import List NArith ZArith QArith Qpower Bool String Ascii.
-From T4V Require Import Base.Str C09.Model C09.Spec C09.ProofsNorm C09.ProofsIdem C09.ProofsValue C09.ProofsLike C09.ProofsFill C09.ProofsComp.
+From T4V Require Import Base.Str C09.Model C09.Spec C09.ProofsNorm C09.ProofsIdem C09.ProofsValue C09.ProofsLike C09.ProofsFill C09.ProofsComp C09.ProofsWrite.
 Import ListNotations.
 Open Scope string_scope.
 
@@ -489,6 +489,48 @@ Theorem C09_geomcomp_name_has_composition :
   In ("m" ++ material_name key c) l.
 Proof. exact geomcomp_name_has_composition. Qed.
 Print Assumptions C09_geomcomp_name_has_composition.
+
+(* what writeT4Composition writes (write_compositions, tied byte for byte): for
+   every material card, in card order, one block per stored density that a live
+   level-0 cell of that material asks for ([dss]: per card the densities, each
+   once); the count line is the number of these (card, density) pairs plus one
+   for m0, and equals the number of blocks written plus one; then the m0 block *)
+Example C09_blocks_of_unfold : forall mc r ds t pw,
+  blocks_of (mc :: r) (ds :: t) pw = (map (block_text mc pw) ds ++ blocks_of r t pw)%list.
+Proof. intros. reflexivity. Qed.
+
+Theorem C09_write_compositions :
+  forall (mcs : list mcard) (cells : dict cell) (pw : list (string * list (string * string))) (text : string),
+  write_compositions mcs cells pw = Ok text -> dens_normal cells ->
+  exists dss,
+    Forall2 (fun mc ds => NoDup ds /\ forall d, In d ds <-> asks (k_key mc) cells d) mcs dss /\
+    text = nl ++ "COMPOSITION" ++ nl ++ dec (N.of_nat (List.length (List.concat dss)) + 1) ++ nl ++
+           concat_str (blocks_of mcs dss pw) ++
+           "POINT_WISE 300 m0 1" ++ nl ++ "  HE4 1E-30" ++ nl ++ nl ++ "END_COMPOSITION" ++ nl /\
+    List.length (blocks_of mcs dss pw) = List.length (List.concat dss).
+Proof. exact write_compositions_spec. Qed.
+Print Assumptions C09_write_compositions.
+
+(* every block starts with its type, the temperature and the name m<key>_<density>
+   — the name GEOMCOMP uses for the cells of that material and density
+   (C09_geomcomp_name_has_composition) *)
+Theorem C09_block_head : forall (mc : mcard) (pw : list (string * list (string * string))) (nd : string),
+  exists typ rest, (typ = "DENSITY" \/ typ = "POINT_WISE") /\
+    block_text mc pw nd = typ ++ " 300 m" ++ dec_Z (k_key mc) ++ "_" ++ nd ++ " " ++ rest.
+Proof. exact block_text_head. Qed.
+Print Assumptions C09_block_head.
+
+Example C09_write_nontrivial :
+  let cells := [(1, mkCell "1" (Some "-1.0") 1 0 None []); (2, mkCell "01" (Some "-2.5") 1 0 None []);
+                (3, mkCell "2" (Some "-7.8") 1 0 None []); (4, mkCell "1" (Some "-9.9") 1 2 None [])]%Z in
+  let mcs := [mkMcard 1 true [("H1", "2"); ("O16", "1")]; mkMcard 2 true [("FE56", "1")]] in
+  write_compositions mcs cells [] =
+  Ok (nl ++ "COMPOSITION" ++ nl ++ "4" ++ nl ++
+      "DENSITY 300 m1_-1.0 1.0 NB_ATOM 2" ++ nl ++ "  H1 2" ++ nl ++ "  O16 1" ++ nl ++
+      "DENSITY 300 m1_-2.5 2.5 NB_ATOM 2" ++ nl ++ "  H1 2" ++ nl ++ "  O16 1" ++ nl ++
+      "DENSITY 300 m2_-7.8 7.8 NB_ATOM 1" ++ nl ++ "  FE56 1" ++ nl ++
+      "POINT_WISE 300 m0 1" ++ nl ++ "  HE4 1E-30" ++ nl ++ nl ++ "END_COMPOSITION" ++ nl).
+Proof. vm_compute. reflexivity. Qed.
 
 Example C09_compositions_nontrivial :
   let cells := [(1, mkCell "1" (Some "-1.0") 1 0 None []); (2, mkCell "01" (Some "-2.5") 1 0 None []);
